@@ -35,6 +35,10 @@
      emitted/nemit — every message the read loop received, each with a unique instance number [mid];
      alog          — (thread, wire id) in order of assignment, newest first.
 
+   Naming: everything is extracted into one flat OCaml module shared by all properties, so every type,
+   field and function below is prefixed pl_ and every constructor Pl (PlLRecv, PlEvStart, ...); the comments
+   use the short names (LRecv, queue, nextQid, ...).
+
    No proofs in this file (Net/PipelineProofs.v). *)
 From Mos Require Import Base.Prelude.
 Local Open Scope N_scope.
